@@ -98,7 +98,7 @@ CHECKS["C08"] = {
     "rule": ("case = one mutated document presented to all entry points. Non-trivial: mutated documents that still decode (reach verification); distinct by the mutated document's bytes; classes name the sub-tree hit (main, maps, nonrev, range, issuance)."),
     "assumptions": ["encoding/json", "seed documents are accepted unmutated (control on every case)"],
     "units": [
-        {"pkg": "root", "run": "TestVF_C08_Mutator", "rapid": {"quick": 250, "thorough": 2500},
+        {"pkg": "root", "run": "TestVF_C08_Mutator", "rapid": {"quick": 250, "thorough": 1500},
          "shards": {"quick": 8, "thorough": 16}, "timeout": {"quick": 500, "thorough": 3400}},
         {"pkg": "root", "run": "TestVF_C08_Hostile"},
         {"pkg": "root", "fuzz": "FuzzVF_C08_Raw", "run": "FuzzVF_C08_Raw", "prepare": "TestVF_C08_WriteFuzzSeeds", "tiers": ["thorough"],
